@@ -81,7 +81,7 @@ var styleVals = []string{"red", "#fff", "12px", "center", "50%", "url(http://x.e
 	"1px 2px 3px 4px 5px", "red none repeat scroll 0 0", "underline overline dotted red"}
 var styleEnums = [][]string{{"red", "blue"}, {"center", "left"}, {"12px", "1"}}
 var styleRes = []string{`^[a-z]+$`, `^[0-9]+px$`, `^#[0-9a-f]{3}$`}
-var styleFns = []string{"digits", "short", "noparen", "true", "false"}
+var styleFns = []string{"digits", "short", "noparen", "true", "false", "maxlen=3", "maxlen=9", "prefix=re", "prefix=b", "prefix=1"}
 
 // cssProps: the standard CSS property names (public CSS vocabulary), used with the library's
 // default handlers so that the css package is exercised broadly, also under concurrency.
@@ -714,6 +714,24 @@ func (g *inGen) attrValue(name string) string {
 	return g.r.Pick(g.v.Vals)
 }
 
+// natural URL attribute of an element, if it has one
+var urlAttrOf = map[string]string{"a": "href", "area": "href", "link": "href", "base": "href", "img": "src", "video": "src", "audio": "src",
+	"iframe": "src", "source": "src", "track": "src", "embed": "src", "script": "src", "input": "src", "blockquote": "cite", "q": "cite", "del": "cite", "ins": "cite"}
+
+// attrsFor: like attrs, but an element that has a natural URL attribute usually carries it
+// (attributes drawn uniformly from the whole vocabulary almost never put an href on an <a>).
+func (g *inGen) attrsFor(el string) string {
+	out := g.attrs()
+	if ua, ok := urlAttrOf[strings.ToLower(el)]; ok && g.r.Bool(0.6) {
+		val := g.attrValue(ua)
+		out += " " + g.caseMut(ua) + `="` + strings.ReplaceAll(val, `"`, "&quot;") + `"`
+		if g.r.Bool(0.3) && (ua == "href") {
+			out += ` rel="` + g.r.Pick([]string{"x", "nofollow", "noopener", "me noreferrer"}) + `"` + g.r.Pick([]string{"", ` target="_blank"`, ` target="_self"`})
+		}
+	}
+	return out
+}
+
 func (g *inGen) attrs() string {
 	var sb strings.Builder
 	n := 0
@@ -790,7 +808,7 @@ func (g *inGen) node(depth int) {
 			return
 		}
 		tag := g.caseMut(name)
-		sb.WriteString("<" + tag + g.attrs() + ">")
+		sb.WriteString("<" + tag + g.attrsFor(name) + ">")
 		if voidEls[name] {
 			return
 		}
@@ -807,7 +825,8 @@ func (g *inGen) node(depth int) {
 			sb.WriteString("</" + g.caseMut(name) + ">")
 		}
 	case w < 66:
-		sb.WriteString("<" + g.caseMut(g.elName()) + g.attrs() + g.r.Pick([]string{"/>", " />", "/ >"}))
+		sc := g.elName()
+		sb.WriteString("<" + g.caseMut(sc) + g.attrsFor(sc) + g.r.Pick([]string{"/>", " />", "/ >"}))
 	case w < 73:
 		sb.WriteString(g.r.Pick(commentForms))
 	case w < 76:
@@ -824,7 +843,7 @@ func (g *inGen) node(depth int) {
 }
 
 func (g *inGen) raw(name string) {
-	g.sb.WriteString("<" + g.caseMut(name) + g.attrs() + ">")
+	g.sb.WriteString("<" + g.caseMut(name) + g.attrsFor(name) + ">")
 	for i, n := 0, g.r.Intn(3); i < n; i++ {
 		g.sb.WriteString(g.rawContent())
 	}
